@@ -6,23 +6,53 @@ from mirq.program import Site
 
 
 def _dispatch_channel_site(ctx):
-    """the channel-constructor call in the store constructor whose sender goes into the sender
-    slot; returns (site, store aggregate statement info)"""
+    """the call in the store constructor that creates the dispatch channel (the channel
+    constructor itself or a crate-local helper that returns its result): returns
+    (constructor body, [origin call Site in that body], sender-slot term)"""
     A = ctx.A
+    from mirq.interp import Interp
     b, bb, stmt = A.ctor
     bp = ctx.prog.bp(b)
     fields = stmt["rv"]["fields"]
     k = fields.index(A.f_tx)
     si = b.blocks[bb]["stmts"].index(stmt)
     t = bp.operand_term(stmt["rv"]["ops"][k], bb, si)
+    fam = A.chan_ctor_family
+    I = Interp(ctx.prog, opaque=lambda body: body.path in fam)
     hits = []
     for st in subterms(t):
-        if st[0] == "field" and st[2] == 0 and st[1][0] == "call":
+        if st[0] == "field" and st[2] == 0 and st[1][0] == "call" and st[1][1][0] == b.path:
             site_key = st[1][1]
             for s in ctx.prog.sites(b):
-                if s.bb == site_key[1] and A.is_chan_ctor_call(s):
+                if s.bb != site_key[1]:
+                    continue
+                if A.is_chan_ctor_call(s):
                     hits.append(s)
+                else:
+                    cb = ctx.prog.callee_body(s)
+                    if cb is not None:
+                        rt = I.expand(I.ret_term(cb))
+                        if rt[0] == "call" and ctx.prog.by_key.get(rt[2]) is not None and ctx.prog.by_key[rt[2]].path in fam:
+                            hits.append(s)
     return b, hits, t
+
+
+def _metrics_given_to_queue(ctx, site):
+    """does the origin call receive (Some of) a clone of the Arc stored in store.metrics?"""
+    A = ctx.A
+    b, bb, stmt = A.ctor
+    bp = ctx.prog.bp(b)
+    si = b.blocks[bb]["stmts"].index(stmt)
+    k = stmt["rv"]["fields"].index(A.f_metrics)
+    mt = bp.operand_term(stmt["rv"]["ops"][k], bb, si)
+    args = [bp.arg_term(site.bb, i) for i in range(len(site.term["args"]))]
+    for a in args:
+        x = a
+        if x[0] == "agg" and x[1].endswith("Option::Some") and x[2]:
+            x = x[2][0]
+        if strip_clone(x) == mt or strip_clone(x) == strip_clone(mt):
+            return True, mt, args
+    return False, mt, args
 
 
 def q1_one_queue_one_consumer(ctx, rep):
@@ -107,7 +137,8 @@ def q2_dequeue_sites(ctx, rep):
         if cb is None or (cb.j.get("impl_adt") or "") != A.sender_adt["path"] or not s.term["args"]:
             continue
         t = ctx.prog.bp(s.body).arg_term(s.bb, 0)
-        if any(st[0] == "field" and st[2] == A.f_tx for st in subterms(t)):
+        touches_queue = any(x.ck in CB_SEND or x.ck in CB_DEQUEUE for x in ctx.prog.sites(cb))
+        if touches_queue and any(st[0] == "field" and st[2] == A.f_tx for st in subterms(t)):
             rep.check(cb.path == A.send_wrapper.path or cb.j.get("impl_trait") is not None, R, "dispatch-sender-used-through-analysed-wrapper:%s" % short(s.body.path), s.where,
                       "the dispatch sender is used through %s" % short(A.send_wrapper.path), "%s is called on the dispatch sender: an enqueue/dequeue path that the channel rules do not cover" % short(cb.path))
     rep.floor(R, "consumer dequeue sites", n_cons, 1)
@@ -138,18 +169,54 @@ def _sender_slot_send_sites(ctx):
     return out
 
 
+def dispatch_enqueue_events(ctx, path):
+    """call events of a path (any inlining depth) that enqueue on the dispatch queue"""
+    A = ctx.A
+    out = []
+    for e in path.calls():
+        if e.site is None or e.inlined or not A.is_send_wrapper_call(e.site) or not e.args:
+            continue
+        if any(st[0] == "field" and st[2] == A.f_tx for st in subterms(e.args[0])):
+            out.append(e)
+    return out
+
+
 def q3_enqueue_under_sender_lock(ctx, rep):
     A = ctx.A
     R = "Q3"
     lock = A.lock_id(A.f_tx)
-    sites = _sender_slot_send_sites(ctx)
-    for s, t in sites:
-        rep.note_fn(s.body.path)
-        may, must = ctx.lr(s.body).held_at(s.bb, "term")
-        rep.check(lock in must, R, "send-under-lock:%s" % short(s.body.path), s.where,
-                  "enqueue on the dispatch queue with %s held on every path" % lock,
-                  "enqueue on the dispatch queue while %s is not held (held: %s)" % (lock, sorted(must)))
-    rep.floor(R, "enqueue sites on the dispatch queue", len(sites), 3)
+    entries = dispatch_entries(ctx)
+    roots = list(entries)
+    try:
+        roots.append(A.method("StoreImpl", "close"))
+    except AnchorMissing as e:
+        rep.anchor_missing(R, e.what)
+    seen_sites = {}
+    for e in roots:
+        rep.note_fn(e.path)
+        pe = ctx.paths(e, inline=True)
+        rep.stats["paths"] += len(pe.paths)
+        found = False
+        per_site = {}
+        for p in pe.paths:
+            for ev in dispatch_enqueue_events(ctx, p):
+                found = True
+                may, must = ctx.held_for_event(ev)
+                k = (ev.body.path, ev.bb)
+                seen_sites[k] = True
+                cur = per_site.get(k)
+                okk = lock in must
+                if cur is None or (cur[0] and not okk):
+                    per_site[k] = (okk, ev, sorted(must))
+        for k, (okk, ev, must) in sorted(per_site.items()):
+            rep.check(okk, R, "send-under-lock:%s" % short(e.path), ev.site.where,
+                      "enqueue on the dispatch queue with %s held on every path" % lock,
+                      "enqueue on the dispatch queue while %s is not held (held: %s)" % (lock, must))
+        if e in entries:
+            rep.check(found, R, "entry-reaches-enqueue:%s" % short(e.path), ctx.where(e),
+                      "dispatch entry point reaches a locked enqueue site", "dispatch entry point does not reach any enqueue on the dispatch queue")
+    rep.floor(R, "enqueue sites on the dispatch queue", len(seen_sites), 3)
+    rep.floor(R, "dispatch entry points", len(entries), 3)
     # sender values must not leave the lock region: no clone of the slot's content
     for b in ctx.prog.bodies:
         bp = ctx.prog.bp(b)
@@ -159,14 +226,6 @@ def q3_enqueue_under_sender_lock(ctx, rep):
                 ty = s.fn["args"][0] if s.fn.get("args") else ""
                 if A.sender_adt["path"] in ty and any(st[0] == "field" and st[2] == A.f_tx for st in subterms(t)):
                     rep.bad(R, "sender-cloned-out-of-slot:%s" % short(b.path), s.where, "the dispatch sender is cloned out of its slot; sends through the clone are not ordered with close()")
-    # every public dispatch entry point reaches such a site
-    entries = dispatch_entries(ctx)
-    site_bodies = {s.body.path for s, _ in sites}
-    for e in entries:
-        reach = ctx.sync_reach([e])
-        rep.check(bool(set(reach) & site_bodies), R, "entry-reaches-enqueue:%s" % short(e.path), ctx.where(e),
-                  "dispatch entry point reaches a locked enqueue site", "dispatch entry point does not reach any enqueue on the dispatch queue")
-    rep.floor(R, "dispatch entry points", len(entries), 3)
 
 
 def dispatch_entries(ctx):
@@ -236,34 +295,41 @@ def q5_synchronous_enqueue(ctx, rep):
     once on every Ok path of the open branch"""
     A = ctx.A
     R = "Q5"
-    sites = _sender_slot_send_sites(ctx)
     n = 0
-    for e in dispatch_entries(ctx):
-        # find the body (entry itself or sync callee) holding the enqueue
-        reach = ctx.sync_reach([e])
-        holders = [b for b in reach.values() if any(s.body.path == b.path for s, _ in sites) and not b.is_closure()]
-        for h in holders:
-            if h.path != e.path and h.path in {x.path for x in dispatch_entries(ctx)}:
-                continue  # thin wrapper around another entry point; checked there
-            n += 1
-            rep.note_fn(h.path)
-            pe = ctx.paths(h)
-            rep.stats["paths"] += len(pe.paths)
-            for p in pe.paths:
-                enq = [ev for ev in p.calls() if ev.site is not None and A.is_send_wrapper_call(ev.site)]
-                ret = p.ret
-                is_ok = ret is not None and ret[0] == "agg" and ret[1].endswith("Result::Ok")
-                slot_some = any(v == "Some" for (k, v) in p.decisions if any(st[0] == "field" and st[2] == A.f_tx for st in subterms(k)))
-                if is_ok:
-                    good = len(enq) == 1 and enq[0].args[1][0] == "agg" and enq[0].args[1][1].endswith("::Action") and strip_clone(enq[0].args[1][2][0]) == ("param", 2)
-                    rep.check(good, R, "ok-path-enqueues-once:%s" % short(h.path), ctx.where(h),
-                              "Ok path [%s] performs exactly one enqueue of Action(param)" % p.describe(),
-                              "Ok path [%s] performs %d enqueue(s): %s" % (p.describe(), len(enq), [repr(x) for x in enq]))
-    rep.floor(R, "dispatch bodies with path tables", n, 2)
-    # no enqueue on the dispatch queue from a deferred closure
     deferred = {c.path for c, s, k in ctx.deferred_closures()}
-    for s, t in sites:
-        rep.check(s.body.path not in deferred, R, "enqueue-not-deferred:%s" % short(s.body.path), s.where, "enqueue runs on the caller's thread", "enqueue was moved into a closure that runs on another thread")
+    for e in dispatch_entries(ctx):
+        rep.note_fn(e.path)
+        pe = ctx.paths(e, inline=True)
+        rep.stats["paths"] += len(pe.paths)
+        n += 1
+        for p in pe.paths:
+            if p.end != "return":
+                continue
+            enq = dispatch_enqueue_events(ctx, p)
+            ret = p.ret
+            is_ok = ret is not None and ret[0] == "agg" and ret[1].endswith("Result::Ok")
+            if is_ok:
+                good = len(enq) == 1 and enq[0].args[1][0] == "agg" and enq[0].args[1][1].endswith("::Action") and strip_clone(enq[0].args[1][2][0]) == ("param", 2)
+                rep.check(good, R, "ok-path-enqueues-once:%s" % short(e.path), ctx.where(e),
+                          "Ok path [%s] performs exactly one enqueue of Action(param)" % p.describe(),
+                          "Ok path [%s] performs %d enqueue(s): %s" % (p.describe(), len(enq), [repr(x) for x in enq]))
+            for ev in enq:
+                rep.check(ev.body.path not in deferred, R, "enqueue-not-deferred:%s" % short(e.path), ev.site.where, "enqueue runs on the caller's thread", "enqueue was moved into a closure that runs on another thread")
+    rep.floor(R, "dispatch entry points with path tables", n, 3)
+    # no enqueue on the dispatch queue from a deferred closure (closures are not inlined above)
+    for c, s_, k in ctx.deferred_closures():
+        for b in ctx.sync_reach([c]).values():
+            for s in ctx.prog.sites(b):
+                if A.is_send_wrapper_call(s):
+                    t = ctx.prog.bp(b).arg_term(s.bb, 0)
+                    rb, rt = _upvar_home(ctx, b, t)
+                    if any(st[0] == "field" and st[2] == A.f_tx for st in subterms(rt)):
+                        rep.bad(R, "enqueue-deferred:%s" % short(b.path), s.where, "an enqueue on the dispatch queue runs in a closure handed to %s: dispatch returns before the action is in the queue" % s_.ck)
+
+
+def _upvar_home(ctx, body, t):
+    from rules.subs import _resolve_upvars
+    return _resolve_upvars(ctx, body, t)
 
 
 def q6_sequential_consumer(ctx, rep):
